@@ -917,7 +917,7 @@ fn process_image(exe: &str, h: &History, profile: u32, ii: usize, img: &Image, b
                     }
                     rep.model_in.push_str("E\n");
                     let ptrs: Vec<String> = if i == 0 {
-                        let mut v: Vec<String> = d.pages.iter().filter(|p| !p.savepoint_only).map(|p| p.pn.num()).collect();
+                        let mut v: Vec<String> = d.pages.iter().filter(|p| !p.savepoint_only).map(|p| p.mptr.trim_start_matches('0').to_string()).collect();
                         v.sort();
                         v
                     } else {
